@@ -29,12 +29,14 @@ Definition opt_pos (m b v dflt : Z) : Z * Z :=
 Definition opt_ndots (m v : Z) : Z * Z :=
   if has m B_NDOTS then (if v <? 0 then (clrb m B_NDOTS, 1) else (m, v)) else (m, 1).
 
-(* ARES_OPT_TIMEOUTMS, else ARES_OPT_TIMEOUT (seconds, converted) *)
+(* ARES_OPT_TIMEOUTMS (the legacy ARES_OPT_TIMEOUT bit is dropped), else ARES_OPT_TIMEOUT
+   (seconds, converted, clamped to INT_MAX ms) *)
 Definition opt_timeout (m v : Z) : Z * Z :=
   if has m B_TIMEOUTMS then
-    (if v <=? 0 then (clrb m B_TIMEOUTMS, 0) else (m, u32 v))
+    (if v <=? 0 then (clrb (clrb m B_TIMEOUT) B_TIMEOUTMS, 0) else (clrb m B_TIMEOUT, u32 v))
   else if has m B_TIMEOUT then
-    (if 0 <? v then (setb (clrb m B_TIMEOUT) B_TIMEOUTMS, u32 (u32 v * 1000)) else (clrb m B_TIMEOUT, 0))
+    (if 0 <? v then (setb (clrb m B_TIMEOUT) B_TIMEOUTMS, if 2147483 <? v then 2147483647 else u32 (u32 v * 1000))
+     else (clrb m B_TIMEOUT, 0))
   else (m, 0).
 
 Definition opt_lookups (m : Z) (l : option bytes) : Z * option bytes :=
@@ -81,10 +83,17 @@ Definition init_by_options (o : options) (optmask : Z) : outcome chan :=
   Ok (mkChan flags (snd p1) (snd p2) (snd p3) (snd p4) rotate udp tcp (snd p5) (snd p6) domains sortlist (snd p8)
              (snd p7) (snd p10) (snd p9) (u32 m) chance delay sscb (snd p11) [] 0 (repeat 0%N 16) None).
 
+Definition chan_set_ifs (c : chan) (ifs : option iftab) : chan :=
+  mkChan (c_flags c) (c_timeout c) (c_tries c) (c_ndots c) (c_maxtimeout c) (c_rotate c) (c_udp c) (c_tcp c)
+         (c_sndbuf c) (c_rcvbuf c) (c_domains c) (c_sortlist c) (c_lookups c) (c_ednspsz c) (c_qcache c)
+         (c_udpmaxq c) (c_optmask c) (c_retry_chance c) (c_retry_delay c) (c_sscb c) (c_servers c)
+         (c_ldev c) (c_lip4 c) (c_lip6 c) ifs.
+
 (* ares_init_options *)
 Definition init_options (e : sysenv) (o : options) (optmask : Z) : outcome chan :=
   do c0 <- init_by_options o optmask;
-  do c1 <- init_by_sysconfig nf e c0;
+  (* ares_set_socket_functions_def() runs before the system configuration is read *)
+  do c1 <- init_by_sysconfig nf e (chan_set_ifs c0 (e_defifs e));
   do c2 <- init_by_defaults e c1;
   Ok (mkChan (c_flags c2) (c_timeout c2) (c_tries c2) (c_ndots c2) (c_maxtimeout c2) (c_rotate c2) (c_udp c2) (c_tcp c2)
              (c_sndbuf c2) (c_rcvbuf c2) (c_domains c2) (c_sortlist c2) (c_lookups c2) (c_ednspsz c2) (c_qcache c2)
